@@ -13,6 +13,7 @@ class Chooser:
     def __init__(self, prefix=()):
         self.prefix = list(prefix)
         self.trace = []   # (kind, arity, choice)
+        self.picked = []  # the values handed back by choice() (e.g. KwikSort pivots), in order
         self.i = 0
 
     def choose(self, arity, kind='?'):
@@ -55,7 +56,10 @@ def d_choice(seq):
     seq = list(seq) if not hasattr(seq, '__getitem__') else seq
     if len(seq) == 0:
         raise IndexError('Cannot choose from an empty sequence')
-    return seq[_active('choice').choose(len(seq), 'choice')]
+    ch = _active('choice')
+    v = seq[ch.choose(len(seq), 'choice')]
+    ch.picked.append(v)
+    return v
 
 
 def d_randint(a, b):
